@@ -3,7 +3,9 @@ from .. import common, sched_gen, sched_impl, sched_suite
 
 PROPERTY = "C07"
 LEAN_MODULE = "IsobarV.Props.C07"
-THEOREMS = ["IsobarV.C07." + t for t in ("tick_phase_order", "phase_one_only_offs", "event_phase_in_order")]
+THEOREMS = ["IsobarV.C07." + t for t in ("tick_phase_order", "phase_one_only_offs", "event_phase_in_order", "tick_decomposes",
+    "event_phase_is_merge", "non_interference", "solo_run", "prepared_pointwise")] + \
+    ["IsobarV.Sched." + t for t in ("tickTrack_solo", "phaseTracks_solo", "foldl_fireOne_tracks")]
 RULE = ("(a) 1-6 tracks with separate streams on distinct channels, coinciding and non-coinciding events, random scheduling order, "
         "legato repeats (gate = 1): real Timeline vs Lean model on the ordered calls of every tick; (b) merge oracle on the "
         "implementation alone: the projection of the multi-track trace on each track's channel equals that track's solo run, and "
